@@ -185,46 +185,58 @@ r_raw.NAME = 'R-RAW(validation before mutation)'
 
 # -------------------------------------------------------- guards still there
 GUARDS = [
-    # (function, test fragment, must precede call)
-    ('dd.bdd.BDD.var', 'varnotinself.vars', 'find_or_add'),
-    ('dd.bdd.BDD.cofactor', 'abs(u)notinself', '_cofactor'),
-    ('dd.bdd.BDD.find_or_add', 'i<0', None),
-    ('dd.bdd.BDD.find_or_add', 'i>=len(self.vars)', None),
-    ('dd.bdd.BDD.find_or_add', 'abs(v)notinself._succ', None),
-    ('dd.bdd.BDD.find_or_add', 'abs(w)notinself._succ', None),
-    ('dd.bdd.BDD.apply', 'abs(u)notinself', 'ite'),
-    ('dd.bdd.BDD.apply', 'abs(v)notinself', 'ite'),
-    ('dd.bdd.BDD.apply', 'abs(w)notinself', 'ite'),
-    ('dd.bdd.BDD.to_expr', 'unotinself', '_to_expr'),
-    ('dd.bdd.BDD.count', 'abs(u)notinself', '_sat_len'),
-    ('dd.bdd.rename', 'abs(u)notinbdd', '_copy_bdd'),
-    ('dd.autoref.BDD.__contains__', 'selfisnotu.bdd', None),
-    ('dd.autoref.BDD._wrap', 'unotinself._bdd', 'Function'),
-    ('dd.autoref.Function.__init__', 'nodenotinbdd._bdd', 'incref'),
-    ('dd.bdd.BDD.swap', '0<=x<len(self.vars)', 'find_or_add'),
-    ('dd.bdd.BDD.swap', '0<=y<len(self.vars)', 'find_or_add'),
-    ('dd.bdd.BDD.swap', 'abs(x-y)!=1', 'find_or_add'),
+    # (function, argument that must be rejected when invalid,
+    #  what the rejecting test has to mention, call it must precede)
+    ('dd.bdd.BDD.var', 'var', ['self.vars'], 'find_or_add'),
+    ('dd.bdd.BDD.cofactor', 'u', ['self'], '_cofactor'),
+    ('dd.bdd.BDD.find_or_add', 'i', ['0'], None),
+    ('dd.bdd.BDD.find_or_add', 'i', ['len(self.vars)'], None),
+    ('dd.bdd.BDD.find_or_add', 'v', ['self'], None),
+    ('dd.bdd.BDD.find_or_add', 'w', ['self'], None),
+    ('dd.bdd.BDD.apply', 'u', ['self'], 'ite'),
+    ('dd.bdd.BDD.apply', 'v', ['self'], 'ite'),
+    ('dd.bdd.BDD.apply', 'w', ['self'], 'ite'),
+    ('dd.bdd.BDD.to_expr', 'u', ['self'], '_to_expr'),
+    ('dd.bdd.BDD.count', 'u', ['self'], '_sat_len'),
+    ('dd.bdd.rename', 'u', ['bdd'], '_copy_bdd'),
+    ('dd.autoref.BDD.__contains__', 'u', ['self', 'bdd'], None),
+    ('dd.autoref.BDD._wrap', 'u', ['self._bdd'], 'Function'),
+    ('dd.autoref.Function.__init__', 'node', ['bdd'], 'incref'),
+    ('dd.bdd.BDD.swap', 'x', ['len(self.vars)'], 'find_or_add'),
+    ('dd.bdd.BDD.swap', 'y', ['len(self.vars)'], 'find_or_add'),
+    ('dd.bdd.BDD.swap', 'x', ['y', '1'], 'find_or_add'),
 ]
+
+
+def raising_guards(fn):
+    """`if <test>: ... raise <non-assertion>` statements of a function."""
+    out = []
+    for node in au.walk_no_defs(fn):
+        if isinstance(node, ast.If) and node.body and isinstance(
+                node.body[-1], ast.Raise) and not au.raises_assertion(
+                    node.body[-1]):
+            out.append(node)
+    return out
 
 
 def r_guards(P, R):
     n = 0
-    for q, frag, before in GUARDS:
+    for q, param, mentions, before in GUARDS:
         f = P.func(q)
         found = None
-        for node in au.walk_no_defs(f.node):
-            if isinstance(node, ast.If) and node.body and isinstance(
-                    node.body[-1], ast.Raise) and not au.raises_assertion(
-                        node.body[-1]):
-                t = au.src(node.test).replace(' ', '')
-                if frag in t:
-                    found = node
-        what = f'rejects `{frag}` before use'
+        for node in raising_guards(f.node):
+            t = au.src(node.test).replace(' ', '')
+            names = au.names_loaded(node.test)
+            if param in names and all(m.replace(' ', '') in t
+                                      for m in mentions):
+                found = node
+                break
+        desc = f'`{param}` against {" / ".join(mentions)}'
         if found is None:
             R.violation(
-                'R-RAW', 'guard-missing', q, frag,
-                f'the check that rejects `{frag}` with an error is gone: '
-                'an invalid argument is used instead of being refused',
+                'R-RAW', 'guard-missing', q, f'{param}:{",".join(mentions)}',
+                f'no test rejects an invalid {desc} with an error any '
+                'more: the argument is used instead of being refused',
                 unit=f.unit.rel, line=f.lineno)
             continue
         n += 1
@@ -233,11 +245,11 @@ def r_guards(P, R):
                       if au.call_name(c) == before]
             if firsts and min(firsts) < found.lineno:
                 R.violation(
-                    'R-RAW', 'guard-late', q, frag,
-                    f'`{frag}` is checked after `{before}` was already '
+                    'R-RAW', 'guard-late', q, f'{param}',
+                    f'{desc} is checked after `{before}` was already '
                     'called', unit=f.unit.rel, line=found.lineno)
                 continue
-        R.holds('R-RAW', q, what)
+        R.holds('R-RAW', q, f'rejects an invalid {desc} before use')
     # every dd.autoref.BDD method that hands `<p>.node` to the manager
     # first checks `<p> not in self` (or is a reviewed exception)
     reviewed = {'find_or_add', 'incref', 'decref', 'succ', '__contains__'}
